@@ -126,8 +126,8 @@ def s_kill(vc):
         vc.ensure("kill.not_live", vc.eq(fl.live, False))
         vc.ensure("kill.not_killable_again", Not(vc.truthy(vc.getattr(fl, "killable")) if vc.mode == "sym" else bool(fl.killable)))
         # a flow that was being held must be able to end: whoever waits in wait_for_resume is released
-        K = And(intercepted, has_event, Not(event_set))
-        vc.ensure_kf("kill.releases_waiter", waiter_released(evt), "KF-C11-1", K)
+        # (was known finding KF-C11-1; repaired in /repo by fix e35d457db, so the obligation is now unconditional)
+        vc.ensure("kill.releases_waiter", waiter_released(evt))
     else:
         from mitmproxy import exceptions
         vc.ensure("notkillable.raises_control_exception", (not out.ok) and issubclass(out.raised_type(), exceptions.ControlException))
